@@ -23,6 +23,15 @@
 (* Invariant RoundTrip: binary -> the arrays read back are identical to     *)
 (* Arrays(c) (bit-identical values and layout); text -> identical           *)
 (* dimensions, pattern and values.                                           *)
+(* The PATTERN (stored index set, used_elements) is state of its own: an    *)
+(* entry that is stored stays stored whatever its value is.  Palettes 3-5   *)
+(* assign {palette value, +0, -0 (PersistFmt!NegZero)} to the stored        *)
+(* entries in every way; StoredWritten: a text file lists every stored      *)
+(* entry (and its header counts them), PatternKept: the index arrays read   *)
+(* back are the ones written.  Binary modes keep the sign bit of a zero,    *)
+(* text modes are compared by value (Canon).  Palette 5: square CSR with    *)
+(* symmetric pattern and values, additionally written in the symmetric      *)
+(* MatrixMarket variant (mode "mtxsym": lower triangle, mirrored on read).  *)
 (* Emit prints each behaviour for the C++ replayer (direction G), which     *)
 (* compares the real byte stream / token stream with the predicted file and *)
 (* the real container read back with the predicted one.                      *)
@@ -34,7 +43,8 @@ CONSTANTS Kind,        \* "dv" | "dvb" | "sv" | "svb" | "dm" | "csr" | "bcsr" | 
           Pal          \* value palette 1 | 2: fixed values (2: with zeros and repeats);
                        \* 3: palette 1 and EVERY assignment {keep, +0, -0} to the stored entries (stored zeros);
                        \* 4: as 3 without -0;  5: (csr) square matrices with symmetric pattern and values, every
-                       \*    symmetric assignment {keep, +0, -0}: adds the symmetric MatrixMarket mode "mtxsym"
+                       \*    symmetric assignment {keep, +0, -0}: adds the symmetric MatrixMarket mode "mtxsym";
+                       \* 6: as 5 without the assignments
 
 VARIABLES ph,    \* "init" | "written" | "read"
           c,     \* the container
@@ -46,7 +56,7 @@ vars == <<ph, c, call, file, back>>
 Den == 4
 PV(k) == IF Pal = 2 THEN ((k * 5) % 7) - 3                                 \* -3..3 with zeros and repeats
          ELSE (IF k % 2 = 1 THEN 2 * k + 1 ELSE -(k + 4))                  \* 3,-6,7,-8,11,... (over 4)
-Sym == Pal = 5
+Sym == Pal \in {5, 6}
 MVal(i, j) == IF Sym THEN PV((Min(i, j) - 1) * 5 + Max(i, j)) ELSE PV((i - 1) * 5 + j)
 
 (***************************************************************************)
